@@ -99,6 +99,52 @@ def gen_program(rng):
     return "\n".join(parts)
 
 
+CALCS = ["calc(1px * var(--x))", "calc(1px + 1%)", "calc(0.5px + 1%)", "min(1px, 1%)", "clamp(0.5px, 1%, 2em)",
+         "calc(var(--a) / 0.5)", "calc((1px + 1%) * 0.5)", "calc(1px - (0.25em + 1%))", "max(.5vw, 1px, 2%)"]
+MODULES = ["math", "string", "list", "map", "color", "selector", "meta"]
+NONDET = {"random", "unique-id"}
+
+
+def builtin_names(sh):
+    """the function table of the compiler under test, read through sass:meta (so a new builtin is swept too)"""
+    src = " ".join('@use "sass:%s";' % m for m in MODULES) + " a { " + " ".join(
+        'b%d: vp-emit(map.keys(meta.module-functions("%s")));' % (i, m) for i, m in enumerate(MODULES)) + " }"
+    r = sh.w.compile({"text": src, "syntax": "scss"})
+    out = []
+    for m, dump in zip(MODULES, r.get("probe") or []):
+        for it in _items(dump):
+            if it not in NONDET:
+                out.append((m, it))
+    return out
+
+
+def _items(dump):
+    found = []
+
+    def walk(x):
+        if isinstance(x, dict):
+            if x.get("t") == "s" and isinstance(x.get("v"), str):
+                found.append(x["v"])
+            for v in x.values():
+                walk(v)
+        elif isinstance(x, list):
+            for v in x:
+                walk(v)
+    walk(dump)
+    return found
+
+
+def gen_builtin_call(rng, names):
+    m, f = rng.choice(names)
+    pool = rng.choice([NUMS, COLS, LISTS, STRS, CALCS, CALCS])
+    args = [rng.choice(pool)]
+    for _ in range(rng.below(3)):
+        args.append(rng.choice(rng.choice([NUMS, COLS, LISTS, STRS, CALCS])))
+    call = "%s.%s(%s)" % (m, f, ", ".join(args))
+    return ('@use "sass:math"; @use "sass:string"; @use "sass:list"; @use "sass:map"; @use "sass:color"; '
+            '@use "sass:selector"; @use "sass:meta";\n$v: %s;\na { b: vp-emit($v, meta.inspect($v), string.length(meta.inspect($v)), "#{meta.inspect($v)}"); c: meta.inspect($v); }' % call)
+
+
 def view(res, user_error=False):
     """(status, canonical blocks | error message | panic) of one compilation"""
     if "ok" in res:
@@ -209,10 +255,15 @@ def run(sh):
     run_pairs(sh, batch)
     inputs = [it["input"] for it in items if "random(" not in it["input"] and "unique-id" not in it["input"]]
     n = 0
+    names = builtin_names(sh)
+    sh.count("builtin_functions_discovered", len(names) if sh.shard == 0 else 0)
     while not sh.expired():
         batch = []
         for _ in range(32):
-            if rng.chance(0.7):
+            if names and rng.chance(0.3):
+                batch.append((gen_builtin_call(rng, names), "scss", "builtin-sweep"))
+                sh.count("builtin_sweep_calls")
+            elif rng.chance(0.7):
                 t = gen_program(rng)
                 batch.append((t, "scss", "generated"))
                 if n < 2:
